@@ -219,6 +219,9 @@ structure Fns where
   /-- an installed or registered plug-in class applied to its argument (YAML / BibTeXML readers,
   writers, foreign `.bib` readers) -/
   plugin : Str → Arg → Prog
+  /-- `bst.parse_file(style + '.bst')` fails (file not found, syntax error): raised before anything
+  else happens in a BibTeX-engine run -/
+  bstError : Str → Option Err
   /-- the macro table a style's `MACRO` commands have built when `READ` is executed
   (`Interpreter.macros`, a new dict per run) -/
   bstMacros : Str → Table
@@ -542,7 +545,10 @@ def step (F : Fns) (w : World) : Call → World × Result
     -- `bib_format` defaults to the `Parser` class itself, called with `macros=self.macros` (the
     -- interpreter's own table, copied by the reader) and `person_fields=[]`; a new `Interpreter`
     -- per run holds every other piece of run state (`Interpreter.__init__`)
-    withReader F false w (newReaderFrom (F.bstMacros style)) files (fun w1 r => runProg F w1 (F.bst style r))
+    match F.bstError style with
+    | some e => (w, .raised e)
+    | none =>
+      withReader F false w (newReaderFrom (F.bstMacros style)) files (fun w1 r => runProg F w1 (F.bst style r))
   | .pythonRun style files =>
     match findPlugin F w inputGroup bibtexName with
     | none => (w, .raised (.pluginNotFound inputGroup bibtexName))
